@@ -2,15 +2,36 @@
    Specification: Spec/Nondet.v  valid_order (decidable) and all_orders (enumeration).
    Model: Model/NdVisit.v  nd_visit, driven by a choice script (one number per random.randrange / random.shuffle).
 
-   Full statements (NOT proved in general; for every generated small value the check enumerates every outcome of the
-   real code's random choices, compares each with the model script by script and the whole set with all_orders):
-     C17_valid      : forall limit script v ns, nd_visit limit script ([], v) = Ok ns -> valid_order ([], v) (map fst ns) = true
+   C17_valid below is the general theorem for the traversal: every value, every limit, every script.
+   Still NOT proved in general (for every generated small value the check enumerates every outcome of the real code's
+   random choices, compares each with the model script by script and the set of container orders with all_orders):
      C17_exhaustive : forall limit v o, valid_order ([], v) o = true -> nesting v <= limit ->
-                      exists script ns, nd_visit limit script ([], v) = Ok ns /\ map fst ns = o
+                      exists script ns, nd_visit limit script ([], v) = Ok ns /\ (container order of ns) = (container order of o)
+   and the statement for whole queries (wildcard and filter selectors shuffle object members too). *)
+From JP Require Import Base.Json Model.NdVisit Spec.Sem Spec.Nondet Proofs.NdSpec Proofs.NdSim.
 
-   Proved here: both statements for all values up to a size bound on a concrete family (by computation), and the
-   soundness of the enumeration with respect to the predicate on that family. *)
-From JP Require Import Base.Json Model.NdVisit Spec.Sem Spec.Nondet.
+(* Whatever the random choices (one script number per random.randrange / random.shuffle call, any numbers, any length),
+   whatever the value and the depth limit: if the nondeterministic traversal returns, the order in which it visited
+   the nodes is one RFC 9535 allows - every node of the value exactly once, each after its parent, the elements of
+   every array in index order.  Proofs/NdSpec.v: the orders a "frontier of queues" can produce are valid
+   (reach_valid); Proofs/NdSim.v: the loop of _nondeterministic_visit, with its pending generators, the draining of
+   scalars and random.shuffle, only ever takes frontier steps (nd_visit_reach). *)
+Theorem C17_valid : forall limit script v ns, wf_json v = true ->
+  nd_visit limit script ([], v) = Ok ns -> valid_order ([], v) (map fst ns) = true.
+Proof. exact nd_visit_valid. Qed.
+Print Assumptions C17_valid.
+
+(* the bound the model puts on the loop (2 * number of nodes + 2 iterations) is never reached: a potential function pays
+   for every iteration, so the only outcomes are a nodelist or JSONPathRecursionError *)
+Theorem C17_loop_terminates : forall limit script root, nd_visit limit script root <> OutOfFuel.
+Proof. intros limit script root E. pose proof (nd_visit_reach limit script root) as H. rewrite E in H. exact H. Qed.
+Print Assumptions C17_loop_terminates.
+
+(* the frontier description is itself sound for the decidable predicate, for every value *)
+Theorem C17_frontier_sound : forall loc v o, wf_json v = true -> reach (queues_of (loc, v)) o ->
+  valid_order (loc, v) (map fst ((loc, v) :: o)) = true.
+Proof. exact reach_valid. Qed.
+Print Assumptions C17_frontier_sound.
 
 (* the document of the original defect report: {"a": {"x": [1], "y": [2]}, "b": [3]} *)
 Definition nm (c : N) : str := [c].
